@@ -1,6 +1,8 @@
 import FinamModel.PyPrelude
 import FinamModel.Translated.transfer_fields
 import FinamModel.Translated.ConnectHelper__apply_rules
+import FinamModel.Translated.ConnectHelper__apply_in_info_rules
+import FinamModel.Translated.ConnectHelper__apply_out_info_rules
 /-!
   C06 — metadata composed by transfer rules, on the *translated* `_transfer_fields` and `ConnectHelper._apply_rules`
   (`tools/connect_helper.py`, regenerated from the source on every run).  An `Info` is read as (time, grid, metadata by
@@ -174,5 +176,64 @@ theorem code_last_value_rule_wins (ins outs : List (Nat × Option Info3)) (rules
 
 example : Tr.ConnectHelper__apply_rules [(0, some (some 5, some 7, [(2, some 9)]))] [] [(0, 0, [], none), (2, 0, [], some 6)]
     = .ok (some 6, some 7, [(2, some 9)]) := by decide
+
+/-! ### which rule sets are applied in a connect call (`_apply_in_info_rules` / `_apply_out_info_rules`) -/
+
+theorem in_rules_loop_nocache (full : List (Nat × Int)) (infos : List (Nat × Option Unit)) (c1 c2 : List (Nat × Nat))
+    (applied : Nat → Option Nat) : ∀ (rs : List (Nat × Int)) (acc : List (Nat × Nat)),
+    Tr.ConnectHelper__apply_in_info_rules.loop1 full infos false c1 acc applied rs =
+      Tr.ConnectHelper__apply_in_info_rules.loop1 full infos false c2 acc applied rs := by
+  intro rs
+  induction rs with
+  | nil => intro acc; rfl
+  | cons r rs ih =>
+    intro acc
+    obtain ⟨name, rl⟩ := r
+    simp only [Tr.ConnectHelper__apply_in_info_rules.loop1]
+    cases dictGet infos name with
+    | error e => rfl
+    | ok o =>
+      simp only [ok_bind, Bool.false_eq_true, not_false_eq_true, true_or, and_true]
+      by_cases h : o.isNone = true
+      · simp only [h, if_true]
+        cases applied name <;> simp [ih]
+      · simp only [h, if_false]; exact ih acc
+
+/-- **without caching, metadata not delivered so far are generated again in every call** (F18, on the code): with
+    `cache=False` what `_apply_in_info_rules` hands back does not depend on what an earlier call left in the cache -/
+theorem code_in_rules_no_cache_ignores_cache (rules : List (Nat × Int)) (infos : List (Nat × Option Unit))
+    (c1 c2 : List (Nat × Nat)) (applied : Nat → Option Nat) :
+    Tr.ConnectHelper__apply_in_info_rules rules infos false c1 applied =
+      Tr.ConnectHelper__apply_in_info_rules rules infos false c2 applied := by
+  unfold Tr.ConnectHelper__apply_in_info_rules
+  rw [in_rules_loop_nocache rules infos c1 c2 applied rules []]
+
+theorem out_rules_loop_nocache (full : List (Nat × Int)) (pushed : List (Nat × Bool)) (c1 c2 : List (Nat × Nat))
+    (applied : Nat → Option Nat) : ∀ (rs : List (Nat × Int)) (acc : List (Nat × Nat)),
+    Tr.ConnectHelper__apply_out_info_rules.loop1 full pushed false c1 acc applied rs =
+      Tr.ConnectHelper__apply_out_info_rules.loop1 full pushed false c2 acc applied rs := by
+  intro rs
+  induction rs with
+  | nil => intro acc; rfl
+  | cons r rs ih =>
+    intro acc
+    obtain ⟨name, rl⟩ := r
+    simp only [Tr.ConnectHelper__apply_out_info_rules.loop1]
+    cases dictGet pushed name with
+    | error e => rfl
+    | ok o =>
+      simp only [ok_bind, Bool.false_eq_true, not_false_eq_true, true_or, and_true]
+      by_cases h : o = true
+      · simp [h, ih]
+      · simp only [h, not_false_eq_true, if_true]
+        cases applied name <;> simp [ih]
+
+/-- the same for the outputs' rule sets -/
+theorem code_out_rules_no_cache_ignores_cache (rules : List (Nat × Int)) (pushed : List (Nat × Bool))
+    (c1 c2 : List (Nat × Nat)) (applied : Nat → Option Nat) :
+    Tr.ConnectHelper__apply_out_info_rules rules pushed false c1 applied =
+      Tr.ConnectHelper__apply_out_info_rules rules pushed false c2 applied := by
+  unfold Tr.ConnectHelper__apply_out_info_rules
+  rw [out_rules_loop_nocache rules pushed c1 c2 applied rules []]
 
 end Finam.Props.Rules
